@@ -10,7 +10,7 @@ import copy
 import json
 import math
 
-from .. import core, sessions
+from .. import core, sessions, layouts
 from ..models import dtw_ref
 
 PROP = "C14"
@@ -25,7 +25,7 @@ RULE = ("one evaluation = one generated history (2-3 client sessions, 6-40 ops: 
 COMPONENTS = {"real": ["subsequence/subsequencesearch.py (SubsequenceSearch, SSMatches, SSMatch)", "dtw.distance / dtw.lb_keogh (Python)",
                        "dtw_cc.distance / lb_keogh (C engine, use_c)", "dtw_ndim.distance"],
               "stub": ["client sessions and their interleaving (seeded scheduler)", "reference model: exhaustive search with /verif/sim/models/dtw_ref.py"]}
-ASSUMPTIONS = ["bounds: mostly query length 1..6 and 1..10 candidates of length 1..8 (one history in 12: 11..24 candidates of length <= 16, k up to 24, up to ~70 ops); values on a small grid (ties and duplicates on purpose)",
+ASSUMPTIONS = ["query and candidates are handed over as contiguous arrays or (independently, three times in seven each) as strided / reversed / Fortran-ordered views of the same numbers", "bounds: mostly query length 1..6 and 1..10 candidates of length 1..8 (one history in 12: 11..24 candidates of length <= 16, k up to 24, up to ~70 ops); values on a small grid (ties and duplicates on purpose)",
                "thresholds are placed at least 1e-4 away from every true distance, or exactly on one where it is an exactly representable integer",
                "index comparisons are tie-aware; comparisons against a fresh object compare counts and distances (rel. tol 1e-9: a cached answer may come from the other engine)"]
 TOL = 1e-9
@@ -75,7 +75,9 @@ def gen_history(st):
             o["penalty"] = rng.choice([0.5, 1.0, 2.0])
         dicts.append(o)
     # true distances decide where thresholds may be placed (away from every distance)
-    setup = {"query": query, "cands": cands, "ndim": ndim, "dicts": dicts}
+    lrng = st("layout")       # a stream of its own: the layouts do not shift the rest of the workload
+    setup = {"query": query, "cands": cands, "ndim": ndim, "dicts": dicts,
+             "layout": {"q": lrng.choice(layouts.KINDS), "c": [lrng.choice(layouts.KINDS) for _ in cands]}}
     Ds = []
     for o in dicts:
         Ds.append(sorted(set(x for x in true_distances(setup, o) if x < math.inf)))
@@ -212,8 +214,9 @@ def check_truthful(pairs, start, D, bound, ctx):
 
 def _mk(setup):
     import numpy as np
-    q = np.array(setup["query"], dtype=np.double)
-    cs = [np.array(c, dtype=np.double) for c in setup["cands"]]
+    lay = setup.get("layout") or {"q": "c", "c": []}
+    q = layouts.view(np.array(setup["query"], dtype=np.double), lay["q"])
+    cs = [layouts.view(np.array(c, dtype=np.double), lay["c"][i] if i < len(lay["c"]) else "c") for i, c in enumerate(setup["cands"])]
     return q, cs
 
 
